@@ -30,7 +30,7 @@ TOGGLE = ["names", "range", "Debug", "Display", "IntoStr", "from_str", "FromStr"
 def cases(draw, tier="quick"):
     spec = draw(S.enum_specs(PROFILE))
     m = M.RefEnum(spec)
-    base = draw(S.configs(spec, p_on=0.65, split=False, params=False, p_sorted=0.5))
+    base = draw(S.configs(spec, p_on=[0.3, 0.65, 0.65, 0.9], split=False, params=False, p_sorted=0.5))
     k = draw(st.integers(3, 5))
     variants = []
     for _ in range(k):
